@@ -129,9 +129,14 @@ type world struct {
 	firstIsFirst bool
 }
 
-func newWorld(r *rand.Rand, id string) *world {
+func newWorld(r *rand.Rand, id string) *world { return newWorldAuto(r, id, 0.1) }
+
+// newWorldAuto: pAuto = 0 gives a machine on which one mutation call makes at
+// most one transition (no auto transition follows it), which the paced
+// scenarios need: two records of one call are two forked writes in flight.
+func newWorldAuto(r *rand.Rand, id string, pAuto float64) *world {
 	spec := gen.RandSchema(r, gen.SchemaOpts{MinStates: 2, MaxStates: 6, PRequire: 0.08, PAdd: 0.08, PRemove: 0.12,
-		PAuto: 0.1, PMulti: 0.25, AcyclicRequire: true})
+		PAuto: pAuto, PMulti: 0.25, AcyclicRequire: true})
 	tr := rec.NewTracer("ref")
 	tr.NoSample = true
 	m := am.New(context.Background(), spec.Schema(), &am.Opts{Id: id, DontLogId: true, DontLogStackTrace: true,
